@@ -58,3 +58,17 @@ pub open spec fn occurs_at(h: Seq<u8>, n: Seq<u8>, i: int) -> bool {
 pub open spec fn is_ws(b: u8) -> bool {
     b == 9 || b == 10 || b == 12 || b == 13 || b == 32
 }
+
+/// `s` is the lowest offset at which `n` occurs in `h` (what `str::find` returns)
+pub open spec fn is_first_occ(h: Seq<u8>, n: Seq<u8>, s: int) -> bool {
+    occurs_at(h, n, s) && forall|j: int| 0 <= j < s ==> !occurs_at(h, n, j)
+}
+
+/// `s` is the highest offset at which `n` occurs in `h` (what `str::rfind` returns)
+pub open spec fn is_last_occ(h: Seq<u8>, n: Seq<u8>, s: int) -> bool {
+    occurs_at(h, n, s) && forall|j: int| s < j ==> !occurs_at(h, n, j)
+}
+
+pub open spec fn no_occ(h: Seq<u8>, n: Seq<u8>) -> bool {
+    forall|j: int| !occurs_at(h, n, j)
+}
